@@ -1,4 +1,5 @@
 import CwMt.Proofs.StakingExample
+import CwMt.Proofs.StakingHistory
 /-
   C15 — Staking rewards accrue linearly, are never over-paid, and pay out what is shown.
   Property theorems only; the proofs live in CwMt/Proofs/Staking{Rewards,Arith,Bounds}.lean.
@@ -22,10 +23,18 @@ import CwMt.Proofs.StakingExample
   The model's operations are steps of that ledger: `update_is_credit` (an `update_rewards` adds exactly `creditOf …` to
   the accumulator of every recorded delegator and keeps the stake), `withdraw_exact` (a withdrawal pays the floor and
   resets).
-  NOT proved (covered by the correspondence slice + the exact-rational predicate `pred_c15` only): the bookkeeping that
-  replays an arbitrary operation history `runAll cfg c ops` as a ledger trace of one pair (which operation is which
-  ledger step, and that the period ends when the record is dropped) — the arithmetic and the two per-operation links are
-  proved, their composition over `Op` lists is not.
+  The composition over operation histories is proved as well (CwMt/Proofs/StakingHistory.lean): `history_of_model` — for
+  every chain satisfying `Inv` and EVERY list of operations (slashes of any validator, anything by other delegators, any
+  number of withdrawals and withdraw-address changes by `d`, block updates) in which `d` does not itself delegate /
+  undelegate / redelegate the pair `(d, v)` and its delegation stays shown, the run of the model is a run of the ledger
+  (`model_run_is_ledger_run`), the tokens the ledger records as paid are exactly what the bank mints to `d`'s withdraw
+  address (`withdrawals_mint_paid`), and the final Delegation query shows `shown` with
+        (paid + shown) tokens ≤ E + 2·n atomics     and     E < (paid + shown + w + 1) tokens + 4·n atomics,
+  `E` = accumulator at the start + Σ over the crediting reward updates of `v` (the final query's own, virtual, update
+  included) of share · apr · (1 − commission) · Δt / YEAR, all scaled by `P0` so that they are natural numbers.
+  Not covered by that theorem: periods across a re-staking of the pair by `d` itself (each such operation starts a new
+  application of the theorem from the chain it produces, with the accumulator carried over as `a0`) and sub-token
+  remnants that are not shown (they earn nothing while alone with their validator — observation O4).
 -/
 namespace CwMt.C15
 open CwMt CwMt.Staking KMap
@@ -130,7 +139,64 @@ theorem update_is_credit {s s1 : SState} {now : Nat} {v : String} {d : Addr} {vi
         creditOf vi.stake s.info.apr.atomics vo.commission.atomics sh.stake.atomics (now - vi.last) ∧
     (curShares s1 d v).stake = sh.stake := Staking.update_is_credit hi h hvi hvo hsh hlt hS
 
+/-! ### history level, on the model itself -/
+
+/-- Every run of the model is a run of the reward ledger of the pair: invariant, validator, shown delegation, the two
+bounds and "ledger accumulator = accumulator of the record" persist along any history that does not re-stake the pair. -/
+theorem model_run_is_ledger_run {cfg : Cfg} {d : Addr} {v : String} {vo : Validator} (ops : List Op) (c : Chain)
+    (l : Ledger) (hi : Inv cfg c) (hok : ∀ op ∈ ops, op.okFor cfg ∧ ¬ op.restakes d v)
+    (hvo : c.st.validator? v = some vo) (hshown : ShownAll cfg d v c ops) (hg : l.Good)
+    (hacc : l.acc = (curShares c.st d v).rewards.atomics) :
+    Inv cfg (runAll cfg c ops).1 ∧ (runAll cfg c ops).1.st.validator? v = some vo ∧
+    1 ≤ (stakeOf (runAll cfg c ops).1.st d v).floor ∧ (track cfg d v c ops l).Good ∧
+    (track cfg d v c ops l).acc = (curShares (runAll cfg c ops).1.st d v).rewards.atomics :=
+  track_run ops c l hi hok hvo hshown hg hacc
+
+/-- What the ledger books as `paid` at `d`'s own withdrawal is exactly what the bank mints to `d`'s withdraw address. -/
+theorem withdrawals_mint_paid {cfg : Cfg} {c c' : Chain} {d : Addr} {v : String} {vo : Validator} {l : Ledger}
+    (hi : Inv cfg c) (hvo : c.st.validator? v = some vo) (hs : 1 ≤ (stakeOf c.st d v).floor)
+    (hacc : l.acc = (curShares c.st d v).rewards.atomics) (hrun : (Op.withdraw d v).run cfg c = .ok c') :
+    (trackStep cfg d v c (.withdraw d v) l).w = l.w + 1 ∧
+    Bank.mint c.bank (withdrawAddr c.st d)
+      [⟨c.st.info.bondedDenom, (trackStep cfg d v c (.withdraw d v) l).paid - l.paid⟩] = some c'.bank :=
+  own_withdraw_mints hi hvo hs hacc hrun
+
+/-- C15 upper and lower bound for every run of the model (full statement in the header): `lE` is the ledger of the pair
+along `ops` plus the virtual update of the final query; the query shows `⌊lE.acc / 10^18⌋`. -/
+theorem history_of_model {cfg : Cfg} {d : Addr} {v : String} {vo : Validator} (ops : List Op) (c : Chain)
+    (hi : Inv cfg c) (hok : ∀ op ∈ ops, op.okFor cfg ∧ ¬ op.restakes d v) (hvo : c.st.validator? v = some vo)
+    (hshown : ShownAll cfg d v c ops) (hvalid : cfg.valid d = true) :
+    ∃ lE : Ledger,
+      lE = creditL (runAll cfg c ops).1 d v
+            (track cfg d v c ops { acc := (curShares c.st d v).rewards.atomics,
+                                   exact := (curShares c.st d v).rewards.atomics * P0 }) ∧
+      queryDelegation cfg (runAll cfg c ops).1 d v =
+        .ok (some ((stakeOf (runAll cfg c ops).1.st d v).floor, lE.acc / Dec.ONE)) ∧
+      (lE.paid + lE.acc / Dec.ONE) * Dec.ONE * P0 ≤ lE.exact + 2 * lE.n * P0 ∧
+      lE.exact < ((lE.paid + lE.acc / Dec.ONE + lE.w + 1) * Dec.ONE + 4 * lE.n) * P0 :=
+  model_history_bounds ops c hi hok hvo hshown hvalid
+
 /-! ### non-vacuity -/
+
+/-- a history for `history_of_model`: after `d1` delegated 10 to `v1` — a third of a year, another delegator joins,
+a 10 % slash, another third, `d1` withdraws, changes its withdraw address, time passes, the other delegator leaves -/
+def exHistory : List Op :=
+  [.advance 10512000, .delegate "d2" "v1" ⟨"TOKEN", 5⟩, .slash "v1" ⟨100000000000000000⟩, .advance 10512000,
+   .withdraw "d1" "v1", .setWithdraw "d1" "d2", .advance 10512001, .undelegate "d2" "v1" ⟨"TOKEN", 1⟩, .advance 61]
+
+def exStart : Chain := (runAll exCfg exChain [.delegate "d1" "v1" ⟨"TOKEN", 10⟩]).1
+
+example : Inv exCfg exStart :=
+  (runAll_inv [.delegate "d1" "v1" ⟨"TOKEN", 10⟩] exChain exChain_inv (by intro op h; simp at h; subst h; simp [Op.okFor, exCfg])).1
+example : ShownAll exCfg "d1" "v1" exStart exHistory := by decide
+example : ∀ op ∈ exHistory, op.okFor exCfg ∧ ¬ op.restakes "d1" "v1" := by
+  intro op h
+  simp only [exHistory, List.mem_cons, List.mem_nil_iff, or_false] at h
+  rcases h with rfl | rfl | rfl | rfl | rfl | rfl | rfl | rfl | rfl <;> simp [Op.okFor, Op.restakes, exCfg]
+/-- its ledger: 6 tokens paid by one withdrawal, 3.000017… pending, 4 crediting updates (the final query's included) -/
+example : (let l := creditL (runAll exCfg exStart exHistory).1 "d1" "v1" (track exCfg "d1" "v1" exStart exHistory {})
+    (l.acc, l.paid, l.w, l.n)) = (3000017694063926939, 6, 1, 4) := by decide
+example : queryDelegation exCfg (runAll exCfg exStart exHistory).1 "d1" "v1" = .ok (some (9, 3)) := by decide
 
 /-- 10 tokens at 100 % for one year show a reward of 10; the withdrawal pays 10 and resets it -/
 example : queryDelegation exCfg (runAll exCfg exChain [.delegate "d1" "v1" ⟨"TOKEN", 10⟩, .advance 31536000]).1 "d1" "v1"
